@@ -13,6 +13,27 @@ CHECKS = {
         note="Trusted: TLC, the harness printing what the functions return. M = 2^31 is not representable in int32_t Msize (covered up to 2^30). "
              "Full 2^32 enumeration of phases is not done at full width; the embedding argument plus edge families stand in for it.",
         design="§6 C13"),
+    "C12": dict(
+        category="model_checking",
+        technique="TLA+ spec Gadget (as-implemented decomposition incl. the dirty-buffer window) checked exhaustively by TLC; "
+                  "rows recorded from tGswTorus32PolynomialDecompH / tGswTLweDecompH (optim AVX2 asm and debug scalar builds) validated by TLC (Table_C12)",
+        text="TLC checks, for every value of the W-bit torus and a grid of layouts (W = l*Bgbit+1 and W = l*Bgbit), that the transcribed decomposition yields balanced digits "
+             "recomposing within the truncation bound, and on a small buffer machine that the input is dirty only inside the add-offset/remove-offset window and restored at the end. "
+             "The real routines are driven over the embedded grids (equality with the model, digit for digit) and, for 15 layouts incl. l*Bgbit = 32 and Bgbit in {1,2,16}, over full-width "
+             "carry/wrap/random families at degrees 8,16,64,1024 and through the TLWE wrapper (k = 1,2); each coefficient row (input, digits, input-after) is decided by TLC.",
+        note="Trusted: TLC; harness prints what the routine leaves in memory. The 2^32 full-width enumeration is replaced by the embedding argument (exact for W >= l*Bgbit) plus edge families; "
+             "default layouts (3,7),(2,10) are enumerated on the code with a stride in the quick tier.",
+        design="§6 C12"),
+    "C11": dict(
+        category="model_checking",
+        technique="TLA+ spec Ring (definitional negacyclic product vs transcribed schoolbook/Karatsuba/monomial loops) model-checked by TLC; "
+                  "rows recorded from the real routines at N = 1..2048 validated by TLC in exact Word32 arithmetic (Table_C11)",
+        text="TLC proves on the specification that the code-shaped operators (two-loop schoolbook, Karatsuba recursion with cut-off and hand-zeroed middle slot, reduction, two-case monomial loops) "
+             "equal the ring definitions for all basis pairs, all exponents a in [0,2N) and extreme dense vectors at N <= 32/64, incl. X^a X^b = X^(a+b), X^N = -1. The real degree-generic routines are run at "
+             "every N in {1,...,2048}: all basis pairs (small N), boundary pairs and few-term extreme polynomials (large N), dense products (N <= 32/64), every a in [0,2N) for the three monomial routines, "
+             "and the coefficient-wise operations with p incl. INT32_MIN; TLC recomputes each result from the definition with 16-bit-limb arithmetic and compares exactly.",
+        note="Trusted: TLC, Word32 limb arithmetic (itself exercised by all rows). Dense 1024-term products are not recomputed by TLC (cost); large N is covered through bilinearity-style sparse inputs.",
+        design="§6 C11"),
 }
 
 NOT_YET = {}
